@@ -58,6 +58,9 @@ class VFG(object):
         self.transfers = []          # (fn, [src nodes], dst node, site)
         self.seeds = []
         self._tuple_defs = {}
+        # single-field structs are transparent wrappers: the value *is* its field
+        self.newtypes = set(p for p, a in prog.adts.items()
+                            if a["kind"] == "Struct" and len(a["variants"][0]["fields"]) == 1)
         self._build()
 
     # ---- nodes ----
@@ -70,7 +73,9 @@ class VFG(object):
                 continue
             if "f" in e:
                 adt = e.get("adt")
-                if adt is not None and adt in prog.adts and "n" in e:
+                if adt is not None and adt in self.newtypes:
+                    pass
+                elif adt is not None and adt in prog.adts and "n" in e:
                     node = ("F", adt, e["n"])
                 elif e.get("upvar"):
                     cd = prog.closure_def_of_type(cur_ty)
@@ -135,7 +140,10 @@ class VFG(object):
             self.add_edge(self.node_of_operand(body, rv["op"]), dst)
         elif k == "agg":
             ak = rv["ak"]
-            if ak == "adt" and rv["def"] in self.prog.adts:
+            if ak == "adt" and rv["def"] in self.newtypes:
+                for op in rv["ops"]:
+                    self.add_edge(self.node_of_operand(body, op), dst)
+            elif ak == "adt" and rv["def"] in self.prog.adts:
                 for name, op in zip(rv["fields"], rv["ops"]):
                     self.add_edge(self.node_of_operand(body, op), ("F", rv["def"], name))
             elif ak == "closure":
